@@ -213,8 +213,8 @@ def main() -> int:
     out = VERIF / "seeded"
     out.mkdir(exist_ok=True)
     rows = []
-    for sd in sorted(root.glob("seed_C??_?")) + sorted(root.glob("seed3_C??_?")) + sorted(root.glob("seed4_C??_?")) + sorted(root.glob("seed5_C??_?")):
-        sid = sd.name[5:] if sd.name.startswith("seed_") else {"seed3_": "b3_", "seed4_": "b4_", "seed5_": "b5_"}[sd.name[:6]] + sd.name[6:]
+    for sd in sorted(root.glob("seed_C??_?")) + sorted(root.glob("seed3_C??_?")) + sorted(root.glob("seed4_C??_?")) + sorted(root.glob("seed5_C??_?")) + sorted(root.glob("seed6_C??_?")):
+        sid = sd.name[5:] if sd.name.startswith("seed_") else {"seed3_": "b3_", "seed4_": "b4_", "seed5_": "b5_", "seed6_": "b6_"}[sd.name[:6]] + sd.name[6:]
         if sid in DROPPED:
             rows.append((sid, "dropped", DROPPED[sid]))
             continue
